@@ -245,6 +245,14 @@ fn build(picks: &[P], b: &mut B, depth: usize, xf: &dyn Fn(BBox) -> BBox) -> Vec
                 out.push(XEl::new("a").a("href", "#top").kid(XEl::new("rect").a("id", id).a("xy", format!("{} {}", num(x), num(y))).a("wh", format!("{} {}", num(w), num(h)))));
             }
         }
+        // a shape may hold descriptive or animation elements: it is rendered, and counts, all the same
+        if p.r % 9 == 4 {
+            if let Some(e) = out.last_mut() {
+                if e.kids.is_empty() && e.get("text").is_none() && matches!(e.name.as_str(), "rect" | "circle" | "ellipse" | "line" | "polyline" | "polygon" | "path" | "image") {
+                    e.kids.push(X::Raw(if p.r % 2 == 0 { "<title>tip</title>" } else { "<desc>more</desc><set attributeName=\"opacity\" to=\"0.5\"/>" }.into()));
+                }
+            }
+        }
     }
     out
 }
